@@ -294,6 +294,35 @@ def xsStep (s : St) (ws : List String) : St × String :=
 
 def poStat (p : Pool.Pool) : String := s!" usiz={p.usiz} asiz={p.asiz}"
 
+/-- the pool family is finished once the main pool and every orphan are gone: the heap is balanced again -/
+def poDone (s : St) (y : Pool.Sys) (line : String) : St × String :=
+  if y.gone ∧ y.orphans.isEmpty then ({ s with po := none }, line ++ " leak=0") else ({ s with po := some y }, line)
+
+/-- calls through a child handle (attached child or orphan); they work after the main pool is gone too -/
+def poChildStep (s : St) (y : Pool.Sys) (ws : List String) : Option (St × String) :=
+  match ws with
+  | ["calloc2", c, n] =>
+    match Pool.lookup y (natArg c) with
+    | none => some (s, "calloc2 nochild")
+    | some q =>
+      let (q', u, o) := Pool.alloc q (natArg n)
+      some ({ s with po := some (Pool.setAny y (natArg c) q') }, s!"calloc2 {u}:{o}" ++ poStat q')
+  | ["cud", c, id] =>
+    match Pool.kidUdSet y (natArg c) (natArg id) with
+    | none => some (s, "cud nochild")
+    | some (y', f) => some ({ s with po := some y' }, "cud" ++ udFree f)
+  | ["cref", c] =>
+    match Pool.refKid y (natArg c) with
+    | none => some (s, "cref nochild")
+    | some (y', k) => some ({ s with po := some y' }, s!"cref {k}")
+  | ["cdestroy", c] =>
+    match Pool.destroyKid y (natArg c) with
+    | (_, none, _) => some (s, "cdestroy nochild")
+    | (y', some b, f) =>
+      let line := (if b then "cdestroy 1" else "cdestroy 0") ++ udFree f
+      some (if b then poDone s y' line else ({ s with po := some y' }, line))
+  | _ => none
+
 def poStep (s : St) (ws : List String) : St × String :=
   match ws with
   | ["new", siz] => let p := Pool.create (natArg siz); ({ s with po := some { main := p } }, "ok" ++ poStat p)
@@ -302,6 +331,10 @@ def poStep (s : St) (ws : List String) : St × String :=
   match s.po with
   | none => (s, "no-pool")
   | some y =>
+  match poChildStep s y ws with
+  | some r => r
+  | none =>
+  if y.gone then (s, "no-pool") else
     let p := y.main
     let setMain (q : Pool.Pool) : St := { s with po := some { y with main := q } }
     let allocOut (tag : String) (n : Nat) (extra : String) : St × String :=
@@ -325,26 +358,12 @@ def poStep (s : St) (ws : List String) : St × String :=
         let toks := if op == "split" then Pool.splitTokens (hexArg h) (hexArg c) (w == "1")
                     else Pool.printfSplit (hexArg h) (hexArg c) (w == "1")
         (setMain (Pool.splitAlloc p (hexArg h) toks), op ++ String.join (toks.map fun t => s!" {hexOut t}"))
-      else if op == "calloc2" then (s, "bad-op")
       else (s, "bad-op")
     | ["child", siz] =>
+      if y.next ≥ 16 then (s, "child full") else
       let c := if siz == "e" then Pool.createEmpty else Pool.create (natArg siz)
       let (y', h) := Pool.attach y c
       ({ s with po := some y' }, s!"child {h}")
-    | ["calloc2", c, n] =>
-      match Pool.kid y (natArg c) with
-      | none => (s, "calloc2 nochild")
-      | some q =>
-        let (q', u, o) := Pool.alloc q (natArg n)
-        ({ s with po := some (Pool.setKid y (natArg c) q') }, s!"calloc2 {u}:{o}" ++ poStat q')
-    | ["cud", c, id] =>
-      match Pool.kidUdSet y (natArg c) (natArg id) with
-      | none => (s, "cud nochild")
-      | some (y', f) => ({ s with po := some y' }, "cud" ++ udFree f)
-    | ["cdestroy", c] =>
-      match Pool.kid y (natArg c) with
-      | none => (s, "cdestroy nochild")
-      | some _ => let (y', f) := Pool.destroyKid y (natArg c); ({ s with po := some y' }, "cdestroy 1" ++ udFree f)
     | ["ud", id] => (setMain (Pool.udSet p (natArg id)).1, "ud" ++ udFree (Pool.udSet p (natArg id)).2)
     | ["udget"] => (s, s!"udget {p.ud.getD 0}")
     | ["uddetach"] => (setMain (Pool.udDetach p).1, s!"uddetach {p.ud.getD 0}")
@@ -352,7 +371,9 @@ def poStep (s : St) (ws : List String) : St × String :=
     | ["destroy"] =>
       match Pool.destroy y with
       | (y', none) => ({ s with po := some y' }, "destroy 0" ++ udFree [])
-      | (_, some f) => ({ s with po := none }, "destroy 1" ++ udFree f ++ " leak=0")
+      | (y', some f) =>
+        let line := "destroy 1" ++ udFree f
+        if y'.orphans.isEmpty then poDone s y' line else ({ s with po := some y' }, line ++ s!" orphans={y'.orphans.length}")
     | _ => (s, "bad-op")
 
 def step (s : St) (ws : List String) : St × String :=
